@@ -52,14 +52,14 @@ def assemble(c, lib):
     lines = ["function __module__"]
     if where == "module":
         lines += pushes + [callins(c["call"]), '\tprintn "*"', "\tvoid"]
-    elif where == "fn":        # the whole exchange inside a bytecode function
+    elif where in ("fn", "fn_args"):        # the whole exchange inside a bytecode function (fn_args: one that was called with arguments)
         helper = ["function helper"] + pushes + [callins(c["call"]), '\tprintn "*"', "\tvoid", "\tret", "end"]
-        lines += ['\tcall "main.mmm#helper"', "\tvoid"]
+        lines += (['\tmake_int "77"', '\tmake_str "zz"'] if where == "fn_args" else []) + ['\tcall "main.mmm#helper"', "\tvoid"]
     elif where == "module_tail":   # the program ends with the foreign call: `call_lib` directly before the module's `ret`
         return "\n".join(["function __module__"] + pushes + [callins(c["call"]), "\tret", "end"]) + "\n"
     else:                      # tail: the foreign call is the last instruction before `ret`; the module prints what comes back
         helper = ["function helper"] + pushes + [callins(c["call"]), "\tret", "end"]
-        lines += ['\tcall "main.mmm#helper"', '\tprintn "*"', "\tvoid"]
+        lines += (['\tmake_int "77"', '\tmake_str "zz"'] if where == "tail_args" else []) + ['\tcall "main.mmm#helper"', '\tprintn "*"', "\tvoid"]
     if c.get("call2"):
         for v in c["vals2"]:
             lines.append(f"\t{MAKE[v['kind']]} {q(v['src'])}")
